@@ -11,4 +11,10 @@ inline bool native_hypot_ok(fixedmath::fixed_t a, fixedmath::fixed_t b, fixedmat
   bool small = labs(a.v) < (1l << 30) && labs(b.v) < (1l << 30);
   return h.v >= 0 && !fixedmath::isnan(h) && (small ? e <= 2.0L : e <= 1.5e-4L * t);
   }
+// accuracy clause of atan_index_aprox (C19), the very predicate the certificate of native/c19_atan_cert.cc encodes as intervals
+inline bool native_atan_index_ok(fixedmath::fixed_t x, fixedmath::fixed_t r)
+  {
+  long double const t = atanl((long double)x.v / 65536) * 128 / 3.14159265358979323846264338327950288L;
+  return fabsl((long double)r.v / 65536 - t) <= 1.25L;
+  }
 }
